@@ -44,7 +44,8 @@ func init() {
 		rule{name: "TERM", run: ruleTermExec},
 		rule{name: "S-own", run: ruleSOwn},
 	)
-	register("C09", "P-dec", nil, rule{name: "P-dec", run: rulePDec}, rule{name: "ACC", run: ruleACC}, rule{name: "L-fresh", run: ruleLFresh})
+	register("C09", "P-dec", nil, rule{name: "P-dec", run: rulePDec}, rule{name: "ACC", run: ruleACC}, rule{name: "L-fresh", run: ruleLFresh},
+		rule{name: "E-use", run: func(c *Ctx) { ruleEUse(c, decodeEntries, 30) }})
 	register("C14", "P-insp", nil, rule{name: "P-insp", run: rulePInsp}, rule{name: "T-tmpl", run: ruleTTmplScripts})
 	register("C16", "P-json", nil, rule{name: "P-json", run: rulePJSON}, rule{name: "FLOAT", run: ruleFloat}, rule{name: "T-dto", run: ruleTDto}, rule{name: "T-dto", run: ruleTDtoOnce}, rule{name: "L-fresh", run: ruleLFresh})
 	register("C13", "T-push T-nm", nil, rule{name: "P-codec", run: rulePCodec}, rule{name: "T-push", run: ruleTPush}, rule{name: "T-nm", run: ruleTNm}, rule{name: "T-op1", run: ruleTOp}, rule{name: "ACC-parse", run: ruleACCParse}, rule{name: "T-asm", run: ruleTAsm}, rule{name: "S-canon", run: ruleSCanon}, rule{name: "W-enc", run: ruleWEnc}, rule{name: "W-opb", run: ruleWOpBytes})
@@ -107,4 +108,24 @@ func init() {
 		rule{name: "P-sig", run: func(c *Ctx) {
 			runP(c, "P-sig", []entrySpec{{"", "*Tx", "CalcInputPreimageLegacy"}}, 5, 10)
 		}})
+}
+
+func init() {
+	// error discipline (E-use) over what each property's operations reach
+	addRule("C01", rule{name: "E-use", run: func(c *Ctx) { ruleEUse(c, decodeEntries, 30) }})
+	addRule("C02", rule{name: "E-use", run: func(c *Ctx) { ruleEUse(c, sighashEntries, 1) }})
+	addRule("C03", rule{name: "E-use", run: func(c *Ctx) { ruleEUse(c, sighashEntries, 1) }})
+	addRule("C04", rule{name: "E-use", run: func(c *Ctx) { ruleEUse(c, signEntries, 3) }})
+	addRule("C05", rule{name: "E-use", run: func(c *Ctx) { ruleEUse(c, execEntries, 100) }})
+	addRule("C06", rule{name: "E-use", run: func(c *Ctx) { ruleEUse(c, execEntries, 100) }})
+	addRule("C07", rule{name: "E-use", run: func(c *Ctx) { ruleEUse(c, execEntries, 100) }})
+	addRule("C10", rule{name: "E-use", run: func(c *Ctx) { ruleEUse(c, changeEntries, 3) }})
+	addRule("C11", rule{name: "E-use", run: func(c *Ctx) { ruleEUse(c, feeEntries, 3) }})
+	addRule("C12", rule{name: "E-use", run: func(c *Ctx) { ruleEUse(c, fundEntries, 3) }})
+	addRule("C13", rule{name: "E-use", run: func(c *Ctx) { ruleEUse(c, codecEntries, 5) }})
+	addRule("C14", rule{name: "E-use", run: func(c *Ctx) { ruleEUse(c, inspectEntries, 3) }})
+	addRule("C15", rule{name: "E-use", run: func(c *Ctx) { ruleEUse(c, addrEntries, 3) }})
+	addRule("C16", rule{name: "E-use", run: func(c *Ctx) { ruleEUse(c, append(append([]entrySpec{}, marshalEntries...), decodeEntries...), 30) }})
+	addRule("C17", rule{name: "E-use", run: func(c *Ctx) { ruleEUse(c, bip276Entries, 3) }})
+	addRule("C20", rule{name: "E-use", run: func(c *Ctx) { ruleEUse(c, ordEntries, 10) }})
 }
